@@ -74,27 +74,34 @@ def tiers(tier):
             dict(name="cube", dims=[2, 2, 2], minn=2, maxn=3, vals=[0, 1], na=True, nvar=1, sel=False, weights=[1],
                  dirset="c3", modes=["vg", "cov", "mado"], mod=5, dpc=2),
         ]
+    one = ["vg", "cov", "covnc", "covg", "mado", "rodo", "poisson", "order4"]
     return [
         dict(name="val1", dims=[3, 3], minn=2, maxn=5, vals=[0, 1, 2], na=True, nvar=1, sel=False, weights=[1],
-             dirset="t2", modes=["vg", "cov", "covnc", "covg", "mado", "rodo", "poisson", "order4"], mod=6, dpc=3),
+             dirset="t2", modes=one, mod=20, dpc=3),
         dict(name="het2", dims=[3, 3], minn=2, maxn=4, vals=[0, 1], na=True, nvar=2, sel=False, weights=[1],
-             dirset="t2", modes=ALLMODES, mod=30, dpc=3),
+             dirset="t2", modes=ALLMODES, mod=100, dpc=3),
         dict(name="val2", dims=[3, 3], minn=2, maxn=3, vals=[0, 1, 2], na=True, nvar=2, sel=False, weights=[1],
-             dirset="t2", modes=ALLMODES, mod=30, dpc=3),
+             dirset="t2", modes=ALLMODES, mod=60, dpc=3),
         dict(name="selw", dims=[3, 3], minn=2, maxn=4, vals=[0, 2], na=False, nvar=1, sel=True, weights=[1, 2],
-             dirset="t2", modes=["vg", "cov", "covnc", "covg", "mado", "order4"], mod=25, dpc=3),
-        dict(name="selw2", dims=[3, 3], minn=2, maxn=3, vals=[0, 1], na=True, nvar=2, sel=True, weights=[1, 3],
-             dirset="t2", modes=["vg", "cov", "covnc", "covg", "trans1", "binormal"], mod=60, dpc=3),
+             dirset="t2", modes=["vg", "cov", "covnc", "covg", "mado", "order4"], mod=100, dpc=3),
+        dict(name="hetw2", dims=[3, 3], minn=2, maxn=3, vals=[0, 2], na=True, nvar=2, sel=False, weights=[1, 3],
+             dirset="t2", modes=["vg", "cov", "covnc", "covg", "trans1", "binormal", "rodo"], mod=120, dpc=3),
+        dict(name="hets2", dims=[3, 3], minn=2, maxn=3, vals=[0, 2], na=True, nvar=2, sel=True, weights=[1],
+             dirset="t2", modes=["vg", "cov", "covnc", "covg", "trans2", "mado", "order4"], mod=120, dpc=3),
         dict(name="dup", dims=[3, 3], minn=2, maxn=4, vals=[0, 1], na=True, nvar=1, sel=False, weights=[1], dup=True,
-             dirset="t2", modes=["vg", "cov", "covnc", "mado"], mod=8, dpc=3),
-        dict(name="line", dims=[5], minn=2, maxn=5, vals=[0, 1, 3], na=True, nvar=1, sel=True, weights=[1, 2],
-             dirset="l1", modes=["vg", "cov", "covnc", "covg", "rodo", "order4"], mod=6, dpc=3),
+             dirset="t2", modes=["vg", "cov", "covnc", "mado"], mod=10, dpc=3),
+        dict(name="big4", dims=[4, 4], minn=2, maxn=3, vals=[0, 1, 2], na=True, nvar=1, sel=False, weights=[1],
+             dirset="t2", modes=["vg", "cov", "covnc", "rodo", "poisson"], mod=10, dpc=3),
+        dict(name="line", dims=[5], minn=2, maxn=5, vals=[0, 1, 3], na=False, nvar=1, sel=True, weights=[1, 2],
+             dirset="l1", modes=["vg", "cov", "covnc", "covg", "rodo", "order4"], mod=100, dpc=3),
+        dict(name="linena", dims=[5], minn=2, maxn=5, vals=[0, 1, 3], na=True, nvar=1, sel=False, weights=[1],
+             dirset="l1", modes=one, mod=1, dpc=3),
         dict(name="line2", dims=[5], minn=2, maxn=5, vals=[0, 1], na=True, nvar=2, sel=False, weights=[1],
-             dirset="l1", modes=ALLMODES, mod=8, dpc=3),
+             dirset="l1", modes=ALLMODES, mod=30, dpc=3),
         dict(name="cube", dims=[2, 2, 2], minn=2, maxn=5, vals=[0, 1, 2], na=True, nvar=1, sel=False, weights=[1],
-             dirset="c3", modes=["vg", "cov", "covnc", "covg", "mado", "poisson"], mod=6, dpc=3),
-        dict(name="cube2", dims=[2, 2, 2], minn=2, maxn=3, vals=[0, 1], na=True, nvar=2, sel=True, weights=[1, 2],
-             dirset="c3", modes=["vg", "cov", "covnc", "trans2"], mod=30, dpc=3),
+             dirset="c3", modes=["vg", "cov", "covnc", "covg", "mado", "poisson"], mod=20, dpc=3),
+        dict(name="cube2", dims=[2, 2, 2], minn=2, maxn=3, vals=[0, 1], na=True, nvar=2, sel=True, weights=[1],
+             dirset="c3", modes=["vg", "cov", "covnc", "trans2"], mod=100, dpc=3),
     ]
 
 
